@@ -20,8 +20,9 @@ def opt(x):
 def one_case(ctx, g, rng, length):
     n = rng.choice([0, 0, 1, 2, 3, 5, 8, 12])
     contents = bytes(rng.randrange(256) for _ in range(n))
-    size = rng.choice([None, None, n, n + 1, n + 7, max(0, n - 1), 0, 2 * n + 3])
-    init = rng.choice([None, None, None, 0, n, max(0, n - 2), n + 2, (size if size is not None else n)])
+    # (a declared size is any uint64: BSS-like intervals with few stored bytes and sizes of 2^63 and beyond save and load)
+    size = rng.choice([None, None, n, n + 1, n + 7, max(0, n - 1), 0, 2 * n + 3, 1 << 63, (1 << 64) - 1, (1 << 63) - 1, (1 << 32) + 5])
+    init = rng.choice([None, None, None, 0, n, max(0, n - 2), n + 2, (size if size is not None and size <= 4096 else n)])
     # (at the top of the address space a block's address = interval address + offset goes beyond 2^64: plain integer arithmetic)
     addr = rng.choice([None, 0, 16, 4096, (1 << 64) - 64, (1 << 64) - 8, (1 << 64) - 1, (1 << 64) - 1])
     items, impl, problems = [], [], []
@@ -51,8 +52,9 @@ def one_case(ctx, g, rng, length):
     impl.append([0])
     blocks = []
     for _ in range(rng.choice([1, 2, 3])):
-        off = rng.choice([0, 0, 1, 2, max(0, n - 1), n, n + 1, esz, max(0, esz - 1)])
-        bsz = rng.choice([0, 1, 2, 4, n, esz + 1])
+        ecap = min(esz, 64)          # block extents stay small also when the DECLARED size is 2^63 or more (views are taken of stored bytes)
+        off = rng.choice([0, 0, 1, 2, max(0, n - 1), n, n + 1, ecap, max(0, ecap - 1)])
+        bsz = rng.choice([0, 1, 2, 4, n, ecap + 1])
         cls = g.CodeBlock if rng.random() < 0.5 else g.DataBlock
         blocks.append(cls(offset=off, size=bsz, byte_interval=bi))
 
@@ -128,8 +130,8 @@ def one_case(ctx, g, rng, length):
     def _one_step(r, old, cur):
         nonlocal beyond
         if r < 0.4:
-            v = rng.choice([0, 1, cur - 1, cur, cur + 1, cur + 5, bi.size, bi.size + 1, max(0, cur - 3), 2, 7])
-            v = max(0, v)
+            v = rng.choice([0, 1, cur - 1, cur, cur + 1, cur + 5, bi.size, bi.size + 1, max(0, cur - 3), 2, 7, 1 << 63, (1 << 64) - 1])
+            v = min(max(0, v), (1 << 64) - 1)
             bi.size = v
             items.append([1, v]); impl.append([0])
             ctx.count("op:size" + ("<stored" if v < cur else (">=stored")))
@@ -138,8 +140,8 @@ def one_case(ctx, g, rng, length):
             if bi.size != v:
                 problems.append("size reads back %d after assigning %d" % (bi.size, v))
         elif r < 0.75:
-            v = rng.choice([0, cur - 1, cur, cur + 1, cur + 3, bi.size, bi.size - 1, bi.size + 1, bi.size + 4, 1])
-            v = max(0, v)
+            v = rng.choice([x for x in (0, cur - 1, cur, cur + 1, cur + 3, bi.size, bi.size - 1, bi.size + 1, bi.size + 4, 1) if x <= 4096])
+            v = max(0, v)            # (never an attempt to STORE 2^63 bytes: huge values are for the declared size only)
             osz = bi.size
             bi.initialized_size = v
             items.append([2, v]); impl.append([0])
@@ -149,7 +151,7 @@ def one_case(ctx, g, rng, length):
                 problems.append("initialized_size=%d on %r left %r" % (v, old, bytes(bi.contents)))
         elif r < 0.85:
             # `contents` is a plain attribute; direct assignment (bytes that fit, or -- outside the property's domain -- more)
-            n2 = rng.choice([0, 1, cur, bi.size, max(0, bi.size - 1), bi.size + 2])
+            n2 = rng.choice([x for x in (0, 1, cur, bi.size, max(0, bi.size - 1), bi.size + 2) if x <= 4096])
             nb = bytes(rng.randrange(256) for _ in range(n2))
             fits = n2 <= bi.size
             bi.contents = bytearray(nb)
